@@ -139,6 +139,17 @@ CHECKS['C09'] = dict(
     note='Trusted: clang-14 -O1 IR; irsym heap model; twin = the library\'s own kernels (their content is C02/C03); quick tier: all shapes '
          'for d=2, seeded samples for d=3..6; thorough: all shapes for d=2..6; rvalue operands are distinct objects from the target.',
     design='§3 C09')
+CHECKS['C05'] = dict(
+    text='A real SQuIDS object (subclass whose H0(x,irho) is a diagonal operator with uninterpreted-function entries) is executed '
+         'symbolically with a symbolic strictly increasing grid installed through Set_xrange, symbolic states, operator, t, t_ini and x. '
+         'GetExpectationValue (both overloads), the four GetExpectationValueD overloads and GetIntermediateState are decided, path by path '
+         'over the lower_bound search, equal to the reference written with the public vector API on the same symbolic arguments (node '
+         'state, H0 at x[ix] resp. at x itself, t-t_ini, weights (x-x_i)/(x_{i+1}-x_i)), for every interval, at every node (tie '
+         'behaviour), after a previous query on an object of another dimension (thread-local buffer), and with the averaging overloads '
+         'under an unreachable scale (flags all false); ok-paths are decided infeasible for x outside the range and throw-paths for x inside.',
+    note='Trusted: clang-14 -O1 IR; virtual dispatch executed from the vtable in the IR; both sides use the library kernels (decided in '
+         'C02/C03/C11), so the subject is the glue; quick: (d,nx,nrho) in 7 configurations up to d=6, nx=4; thorough: d=2..6 x nx=2..5.',
+    design='§3 C05')
 NA_REASON = 'check not built yet (framework under construction; see DESIGN.md)'
 NA = {}
 
